@@ -218,8 +218,8 @@ P("C12", module="AJ.Props.C12All", extra=[("AJ.Props.SlotCor", ["C12"]), ("AJ.Pr
   level_note="the theorems are about the softfloat model; its bit-exact agreement with the compiled code (x86-64 SSE2 double arithmetic) is what the correspondence checks on sampled and boundary values",
   suites=lambda tier: [S.NumSuite(cfg=DEF)])
 
-P("C13", module="AJ.Props.C13All", extra=[("AJ.Props.C13", ["C13"]), ("AJ.Props.C13Copy", ["C13"])],
-  level_text="Theorems for every stored number and each of the eight integral widths: as<T>() is the exact value when it lies in T's range and 0 otherwise, never undefined "
+P("C13", module="AJ.Props.C13All", extra=[("AJ.Props.C13Gen", ["C13"]), ("AJ.Props.C13", ["C13"]), ("AJ.Props.C13Copy", ["C13"])],
+  level_text="C13.conversions_are_source: on 92 stored values at and around every type boundary (unsigned, signed, double, float) the model's as<int8_t>() ... as<uint64_t>(), as<float>(), as<double>() are those obtained on every run by calling the compiled library (translator tie, kernel evaluation). Theorems for every stored number and each of the eight integral widths: as<T>() is the exact value when it lies in T's range and 0 otherwise, never undefined "
   "(the model's UB state is unreachable), the six highest_for constants (regenerated from the source) are the largest float/double not above T::max, is<T>() iff stored as an integer "
   "that fits and then as<U>() agrees for every wider U; float<->double and integer->float conversions are exact / nearest. copyArray (model lean/AJ/Model/CA.lean): copy1_within / "
   "copy1_count / copy1_content, copy2_within, copyStr_within / copyStr_terminated - the destination keeps its size, exactly min(lengths) cells are written with the converted elements, every "
